@@ -109,11 +109,8 @@ impl MergedServerSelection {
 fn get_variables(
     arguments: &[ArgumentKeyAndValue],
 ) -> impl Iterator<Item = VariableNameWrapper> + '_ {
-    arguments.iter().flat_map(|arg| match arg.value {
-        isograph_lang_types::NonConstantValue::Variable(v) => Some(v),
-        // TODO handle variables in objects and lists
-        _ => None,
-    })
+    // N.B. this includes the variables nested in objects and lists
+    arguments.iter().flat_map(|arg| arg.value.variables())
 }
 
 #[derive(Clone, Eq, PartialEq, Ord, PartialOrd, Debug)]
